@@ -20,6 +20,10 @@ def run(ctx):
     ctx.not_decided = ["the ordering over score vectors for all values", "fairness of the tie-break"]
     identity_predicate(ctx)
     loop_sources(ctx)
+    e_live_heads_per_group(ctx)
+    d_priority_zero(ctx)
+    c_identity_by_instance(ctx)
+    c_abort_spares_winner(ctx)
     t = ctx.tree.ast(SM)
     fn = find_function(t, "_resolve_action_conflicts")
     if fn is None:
@@ -95,7 +99,18 @@ def run(ctx):
         for p in cfg.paths(f0, gnode, max_paths=20000, back_limit=1, avoid=inner_first):
             paths.append(p)
     ctx.count(len(paths))
-    counts = sorted({sum(1 for n in p if is_emit(n)) for p in paths})
+    # an iteration whose group is EMPTY (all its heads belong to flows that were aborted while an earlier loop was resolved) emits nothing, by definition
+    gname = gl.target.id if isinstance(gl.target, ast.Name) else None
+
+    def _empty_group_exit(p):
+        for n in p:
+            if n.kind == "test" and n.ast is not None and gname and re.sub(r"\s", "", src(n.ast)) in ("len(%s)==0" % gname, "not%s" % gname, "len(%s)<1" % gname):
+                outs = {lab: m for m, lab in n.succ}
+                nxt = p[p.index(n) + 1] if p.index(n) + 1 < len(p) else None
+                if nxt is not None and outs.get(True) is nxt:
+                    return True
+        return False
+    counts = sorted({sum(1 for n in p if is_emit(n)) for p in paths if not _empty_group_exit(p)})
     ctx.check("C05.b.one-emission", SM, unit, "emissions per group iteration", counts == [1],
               "on every path through one group iteration exactly one action event is generated (counts over %d paths: %s)" % (len(paths), counts), line=gl.lineno)
     inner = [f for f in ast.walk(gl) if isinstance(f, ast.For) and f is not gl and any(f is s for s in gl.body)]
@@ -414,3 +429,95 @@ def loop_sources(ctx):
                   ("the loop id is a fresh id, the instance's own declared loop, or a live instance's run-time loop id (%s)" % why) if ok else
                   ("the loop id can come from %s: a DECLARED loop id of another flow (possibly the literal \"NEW\") puts unrelated instances into one interaction loop, where their actions compete (%s)"
                    % (bad or "an unguarded declared id", why)), line=n.lineno)
+
+
+def e_live_heads_per_group(ctx):
+    """The interaction loops are resolved one after the other, and aborting the losers of one loop can stop flows (children with their own @loop) whose heads sit in a
+    group that is resolved LATER.  Before a group is resolved its heads must be re-checked for liveness, otherwise the action of an already stopped flow is started."""
+    t = ctx.tree.ast(SM)
+    fn = find_function(t, "_resolve_action_conflicts")
+    gl = [l for l in ast.walk(fn) if isinstance(l, ast.For) and any(isinstance(c, ast.Call) and src(c.func) == "sorted" for st in l.body for c in ast.walk(st))
+          and any(isinstance(c, ast.Call) and src(c.func) == "_abort_flow" for c in ast.walk(l))]
+    if not gl:
+        ctx.note("C05.e: no per-group resolution loop with aborts recognised")
+        return
+    l = gl[0]
+    g = l.target.id if isinstance(l.target, ast.Name) else None
+    if g is None:
+        # the group is bound inside the loop body (e.g. `group = list(loop_heads)`): the variable that is sorted
+        for st in l.body:
+            for c in ast.walk(st):
+                if isinstance(c, ast.Call) and src(c.func) == "sorted" and c.args and isinstance(c.args[0], ast.Name):
+                    g = c.args[0].id
+    first_use = None
+    for st in l.body:
+        if any(isinstance(c, ast.Call) and src(c.func) in ("sorted", "max", "random.choice") for c in ast.walk(st)):
+            first_use = st
+            break
+    refilter = [st for st in l.body if isinstance(st, ast.Assign) and src(st.targets[0]) == g and "is_active_flow" in src(st.value) and (first_use is None or st.lineno < first_use.lineno)]
+    aborts = any(isinstance(c, ast.Call) and src(c.func) == "_abort_flow" for c in ast.walk(l))
+    ok = bool(refilter) or not aborts
+    ctx.check("C05.e.filter", SM, fn.name, "heads re-checked for liveness per group", ok,
+              "before a group is ordered its heads are filtered by is_active_flow (flows stopped by the resolution of an earlier loop no longer compete)" if ok else
+              "a group resolved after another loop's losers were aborted still contains the heads of flows that the abort has stopped (a child flow with its own @loop): such a head is picked, "
+              "its action is started for a STOPPED flow and never stopped", line=l.lineno)
+
+
+def d_priority_zero(ctx):
+    """`scaled by a declared flow priority`: every declared priority - including the allowed value 0.0 - scales the score, and a scaled match stays a match (> 0)."""
+    t = ctx.tree.ast(SM)
+    fn = find_function(t, "_compute_event_comparison_score")
+    scal = []
+    for n in ast.walk(fn):
+        if isinstance(n, ast.AugAssign) and isinstance(n.op, ast.Mult) and src(n.target) == "match_score" and "priority" in src(n.value):
+            scal.append(n)
+        if isinstance(n, ast.Assign) and src(n.targets[0]) == "match_score" and any(isinstance(b, ast.BinOp) and isinstance(b.op, ast.Mult) and "priority" in src(b) for b in ast.walk(n.value)):
+            scal.append(n)
+    if not scal:
+        raise AnalysisError("priority scaling not found", anchor=SM + "::_compute_event_comparison_score::priority")
+    for n in scal:
+        par = getattr(n, "_parent", None)
+        test = re.sub(r"\s", "", src(par.test)) if isinstance(par, ast.If) else ""
+        skips_zero = test in ("priority", "priority>0", "priority>0.0", "priorityandpriority>0") or "priority>0" in test
+        floored = isinstance(n, ast.Assign) and isinstance(n.value, ast.Call) and src(n.value.func) == "max"
+        ok = not skips_zero and floored
+        ctx.check("C05.d.priority-zero", SM, fn.name, first_line(n, 70), ok,
+                  "every declared priority scales the score and the result keeps a positive floor" if ok else
+                  ("the scaling is guarded by `%s`, which skips the allowed priority 0.0: such a flow competes with its FULL score and beats flows with priority 0.5 or 0.99" % src(par.test) if skips_zero else
+                   "the scaled score has no positive floor: priority 0.0 turns a match into score 0.0 = no match"), line=n.lineno)
+
+
+def c_identity_by_instance(ctx):
+    """`identical action`: for events that refer to an EXISTING action instance (Stop/Change of a running action) identity includes the instance.  Event.is_equal compares
+    name and arguments only, so the co-win branch must also compare the action uids before it merges the two actions."""
+    t = ctx.tree.ast(SM)
+    fn = find_function(t, "_resolve_action_conflicts")
+    eqs = [i for i in ast.walk(fn) if isinstance(i, ast.If) and "is_equal" in src(i.test)]
+    if not eqs:
+        ctx.check("C05.c.identity-instance", SM, fn.name, "co-win test", False, "no `is_equal` test decides which competing heads co-win", line=fn.lineno)
+        return
+    i = eqs[0]
+    uid_cmp = [c for c in ast.walk(i) if isinstance(c, ast.Compare) and any(isinstance(o, (ast.Eq, ast.NotEq)) for o in c.ops)
+               and re.search(r"winning\w*\.action_uid", src(c)) and re.search(r"competing\w*\.action_uid", src(c))]
+    dels = [d for d in ast.walk(i) if isinstance(d, ast.Delete) and "state.actions" in src(d)]
+    ok = bool(uid_cmp) or not dels
+    ctx.check("C05.c.identity-instance", SM, fn.name, first_line(i.test, 60), ok,
+              "events of existing action instances co-win only for the same instance" if ok else
+              "two competing events are `identical` by name+arguments alone and the branch then merges the actions (`del state.actions[...]`): two flows that each `send $ref.Stop()` on DIFFERENT running actions "
+              "emit one Stop, both proceed, the other action is never stopped and is deleted from state.actions (a later clean-up raises KeyError)", line=i.lineno)
+
+
+def c_abort_spares_winner(ctx):
+    """`exactly one of them proceeds`: the loser is failed with _abort_flow, which also aborts all children of the loser.  If the winner is a descendant of the loser
+    (child flow with the more specific match), aborting the loser aborts the winner: zero flows proceed."""
+    t = ctx.tree.ast(SM)
+    fn = find_function(t, "_resolve_action_conflicts")
+    ab = find_function(t, "_abort_flow")
+    aborts = [c for c in ast.walk(fn) if isinstance(c, ast.Call) and src(c.func) == "_abort_flow"]
+    cascades = ab is not None and any(isinstance(c, ast.Call) and src(c.func) == "_abort_flow" for c in ast.walk(ab)) and "child_flow_uids" in src(ab)
+    spares = any(k in src(fn) for k in ("_get_flow_state_hierarchy", "spare", "is_descendant", "ancestor"))
+    ok = not (aborts and cascades) or spares
+    ctx.check("C05.c.abort-spares-winner", SM, fn.name, "abort of a loser vs. a winner among its descendants", ok,
+              "aborting a loser cannot reach the winning head" if ok else
+              "a loser is failed with _abort_flow, which recursively aborts its child flows, and nothing excludes the branch that holds the winning head: when a child wins against its own parent "
+              "(more specific match) the parent's abort stops the child too - the winning action is started and stopped in the same round and no flow proceeds", line=(aborts[0].lineno if aborts else fn.lineno))
